@@ -186,7 +186,12 @@ class Task:
                     break
                 except _ExecReplace as ex:
                     prog = ex.program
-                    fn = (lambda p=prog, a=ex.argv: p(a))
+
+                    def fn(p=prog, a=ex.argv):
+                        # loading a new program image (interpreter start-up, imports) takes time: the process that exec'd is not runnable
+                        # again at once - in particular its parent gets to return from fork() long before the new program does anything
+                        sim.block(lambda: False, sim.exec_latency, False, False)
+                        return p(a)
                     continue
         except SimKilled:
             status = None
@@ -245,6 +250,7 @@ class Sim:
         self.max_time = max_time
         self.timers = []             # [time, seq, fn]
         self.tseq = 0
+        self.exec_latency = 0.02
         self.fs = {"/": Inode("dir", 0o755, 0, 0), "/tmp": Inode("dir", 0o1777, 0, 0), "/run": Inode("dir", 0o755, 0, 0),
                    "/srv": Inode("dir", 0o755, 0, 0)}
         self.listeners = {}          # addr -> Listener
